@@ -100,3 +100,16 @@ Theorem C02_path_fill_spec :
     forall yy c, start <= yy -> (yy < stop \/ yy = start) -> (forall e, In e (acts yy) -> x_ok e) ->
       (cov out yy c <-> masked (wsum (xs_of (active_at es yy)) c) eo = true).
 Proof. exact path_fill_spec. Qed.
+
+(* curve edges: the line edges a QuadraticEdge walks through (bit-exact model Model/CurveEdge.v, quad_edge correspondence) tile a
+   contiguous range of rows from top to bottom: each edge starts on the row after the previous edge's last row, none is empty
+   or reversed, all carry the winding of the quad (+1 or -1) *)
+From TS Require Import Model.CurveEdge Proofs.CurveEdgeProofs.
+Theorem C02_quad_edge_rows_chained :
+  forall p0 p1 p2 sh ls,
+  quad_edge_lines p0 p1 p2 sh = Some ls ->
+  match ls with
+  | nil => True
+  | cons e _ => exists w, (w = 1 \/ w = -1)%Z /\ chained w (e_first_y e) ls
+  end.
+Proof. exact quad_edge_lines_chained. Qed.
